@@ -78,8 +78,8 @@ package generator
 // ---- C07: wrapping mode selection ----
 //@ func generator.wrap
 //@   props C07
+//@   pure
 //@   requires@C13 builder.CtxOK(ctx) && (forall j int :: 0 <= j && j < len(errPath) ==> builder.PathElem(errPath[j]))
-//@   assigns nothing
 //@   ensures ctx.Conf.WrapErrorsUsing != "" ==> result == errPath.WrapErrorsUsing(ctx.Conf.WrapErrorsUsing, errStmt)
 //@   ensures ctx.Conf.WrapErrorsUsing == "" && ctx.Conf.WrapErrors ==> result == errPath.WrapErrors(errStmt)
 //@   ensures ctx.Conf.WrapErrorsUsing == "" && !ctx.Conf.WrapErrors ==> result == errStmt
@@ -123,15 +123,25 @@ package generator
 //@   ensures err == nil && result1 != nil ==> result1.Code != nil
 //@   at call g.lookup.Get#1 assert !has(g.extend.Exact, signature)
 
+// C07: a fallible custom function is emitted as `name, err := call; if err != nil { <ReturnError statement> }`
 //@ func generator.CallMethod
 //@   props C06 C07 C03
 //@   propagates
+//@   ensures err == nil ==> len(result0) == 0 || len(result0) == 2
+//@   at@C07 call xtype.VariableID#1 assert ok && len(stmt) == 2
+//@           && stmt[0] == jen.Code(jen.List(jen.Id(name), jen.Id("err")).Op(":=").Add(qual.Call(params...)))
+//@           && stmt[1] == jen.Code(jen.If(jen.Id("err").Op("!=").Nil()).Block(ret))
 //@   requires@C13 builder.GenInv(g) && builder.GenCtx(g, ctx) && builder.MethodOK(ctx) && ctx.Namer != nil && definition != nil && target != nil
 //@   ensures@C13 builder.GenInv(g) && builder.GenCtx(g, ctx)
 //@   ensures err == nil ==> result1 != nil && result1.Code != nil
 
+// the emitted return statement: the target variable first (unless update), wrap(err) last; goverter refuses
+// (ok == false) only when the current method does not return an error itself
 //@ func generator.ReturnError
 //@   props C07
+//@   ensures !result1 ==> !old(ctx.Conf.ReturnError) && result0 == nil
+//@   at call jen.Return#* assert arg0[len(arg0)-1] == jen.Code(g.wrap(ctx, errPath, id)) && len(arg0) == ite(current.UpdateTarget, 1, 2)
+//@           && (!current.UpdateTarget ==> arg0[0] == jen.Code(ctx.TargetVar))
 //@   requires@C13 builder.GenInv(g) && builder.GenCtx(g, ctx) && builder.MethodOK(ctx) && id != nil
 //@   ensures@C13 builder.GenInv(g) && builder.GenCtx(g, ctx)
 //@   ensures result1 ==> result0 != nil
@@ -168,4 +178,10 @@ package generator
 //@   props C17 C06 C03
 //@   propagates
 //@   requires@C13 converter != nil && n != nil
+//@   ensures err == nil ==> result != nil
+
+// C07: a delegate that can fail needs a method that returns an error
+//@ func generator.delegateMethod
+//@   props C07 C06
+//@   ensures delegateTo.ReturnError && !g.lookup.ByID(ctx.IndexID).ReturnError ==> err != nil && result == nil
 //@   ensures err == nil ==> result != nil
